@@ -1,5 +1,6 @@
 import Verif.Conc.Shape
 import Verif.Generated.LockShape
+import Verif.Conc.WrapperTable
 /-!
 # The proof obligation over the generated table: every public method of every container is WellLocked
 -/
